@@ -600,13 +600,29 @@ example : EntryRT widthStd exAccount := entryRT_account _ _ _ (by decide +kernel
 example : EntryRT widthCjk exCommodity := entryRT_commodity _ _ _ (by decide +kernel)
 example : parseEntries (formatEntries widthStd [exAccount, .comment "x\n", exCommodity, .account "A" []]) =
     .ok [exAccount, .comment "x\n", exCommodity, .account "A" []] :=
-  parseEntries_format_nonTxn _ _ (by decide +kernel) (by decide +kernel)
+  parseEntries_format_nonTxn _ _ (by decide +kernel)
+    (by intro e he t h; subst h; simp [exAccount, exCommodity] at he)
+
+/-- the account / commodity declaration a parse result carries, in a type with decidable equality -/
+def declOf : Res Entry → Option (String × List AccountDetail × List CommodityDetail × List Char)
+  | .ok (.account n ds) r => some (n, ds, [], r)
+  | .ok (.commodity n ds) r => some (n, [], ds, r)
+  | _ => none
 
 /-- two consecutive comment details are read back as one: `noAdjacentA` cannot be dropped -/
-example : parseLedgerEntry (printEntry widthStd (.account "A" [.comment "x\n", .comment "y\n"]) ++ ['\n']) =
-    .ok (.account "A" [.comment "x\ny\n"]) ['\n'] := by decide +kernel
-/-- the same for notes in a commodity declaration -/
-example : parseLedgerEntry (printEntry widthStd (.commodity "C" [.note "x\n", .note "y\n"]) ++ ['\n']) =
-    .ok (.commodity "C" [.note "x\ny\n"]) ['\n'] := by decide +kernel
+theorem not_entryRT_adjacent_comments : ¬ EntryRT widthStd (.account "A" [.comment "x\n", .comment "y\n"]) := by
+  intro h
+  have h1 : declOf (parseLedgerEntry (printEntry widthStd (.account "A" [.comment "x\n", .comment "y\n"]) ++ ['\n'])) =
+      some ("A", [.comment "x\ny\n"], [], ['\n']) := by decide +kernel
+  rw [h.2 []] at h1
+  simp [declOf] at h1
+
+/-- the same for notes in a commodity declaration: `noAdjacentC` cannot be dropped -/
+theorem not_entryRT_adjacent_notes : ¬ EntryRT widthStd (.commodity "C" [.note "x\n", .note "y\n"]) := by
+  intro h
+  have h1 : declOf (parseLedgerEntry (printEntry widthStd (.commodity "C" [.note "x\n", .note "y\n"]) ++ ['\n'])) =
+      some ("C", [], [.note "x\ny\n"], ['\n']) := by decide +kernel
+  rw [h.2 []] at h1
+  simp [declOf] at h1
 
 end Okane.Unparse
